@@ -842,12 +842,13 @@ func (w *world) apply(e *event) {
 		w.settleCheck(e.step)
 	case "clienttx":
 		if cl := w.clients[e.i]; cl != nil && cl.epoch == e.j && !cl.conn.linkDown() {
+			st := atomic.AddInt64(&w.stamp, 1)
 			cl.conn.feed(e.pkt)
 			cl.lastTxAt = w.nowMs()
 			w.orderH = append(w.orderH, fmt.Sprintf("tx%d", e.i))
 			if len(e.pkt) == 4 { // a scripted acknowledgement: type, length 2, packet id
 				w.mu.Lock()
-				w.obs = append(w.obs, Obs{Step: w.curStep, AtMs: w.nowMs(), Stamp: atomic.AddInt64(&w.stamp, 1), Client: cl.idx, Epoch: cl.epoch, Auto: true,
+				w.obs = append(w.obs, Obs{Step: w.curStep, AtMs: w.nowMs(), Stamp: st, Client: cl.idx, Epoch: cl.epoch, Auto: true,
 					P: &mpkt{Type: int(e.pkt[0] >> 4), Pid: int(e.pkt[2])<<8 | int(e.pkt[3])}})
 				w.mu.Unlock()
 			}
@@ -1101,9 +1102,11 @@ func (w *world) live(c int) *simClient {
 }
 
 func (w *world) send(cl *simClient, typ int, b []byte, pid int, note string) int64 {
+	// the stamp is taken before the bytes become visible to the broker: whatever the broker
+	// does in reaction carries a later stamp, whichever goroutine the runtime runs first
+	st := atomic.AddInt64(&w.stamp, 1)
 	cl.conn.feed(b)
 	cl.lastTxAt = w.nowMs()
-	st := atomic.AddInt64(&w.stamp, 1)
 	w.mu.Lock()
 	w.obs = append(w.obs, Obs{Step: w.curStep, AtMs: w.nowMs(), Stamp: st, Client: cl.idx, Epoch: cl.epoch, P: &mpkt{Type: typ, Pid: pid, Topic: note}})
 	w.mu.Unlock()
@@ -1111,10 +1114,11 @@ func (w *world) send(cl *simClient, typ int, b []byte, pid int, note string) int
 }
 
 func (w *world) sendPub(cl *simClient, topic string, payload []byte, qos int, retain, dup bool, pid int) {
+	st := atomic.AddInt64(&w.stamp, 1) // before the bytes are visible to the broker (see send)
 	cl.conn.feed(encPublish(topic, payload, qos, retain, dup, pid))
 	cl.lastTxAt = w.nowMs()
 	w.mu.Lock()
-	w.obs = append(w.obs, Obs{Step: w.curStep, AtMs: w.nowMs(), Stamp: atomic.AddInt64(&w.stamp, 1), Client: cl.idx, Epoch: cl.epoch,
+	w.obs = append(w.obs, Obs{Step: w.curStep, AtMs: w.nowMs(), Stamp: st, Client: cl.idx, Epoch: cl.epoch,
 		P: &mpkt{Type: tPUBLISH, Pid: pid, Topic: topic, Payload: payload, Qos: qos, Retain: retain, Dup: dup}})
 	w.mu.Unlock()
 }
